@@ -25,7 +25,7 @@ RND = bytes(random.Random(7).getrandbits(8) for _ in range(100000))
 PREGZ = gzip.compress(b'pre-compressed by the application, very repetitive ' * 20000, 6)
 BADCOOKIES = {'ok200cookie1': 'clastic_cookie=QUJD?k\xe9=InYi', 'ok200cookie2': 'clastic_cookie=QUJ?a=InYi',
               'ok200cookie3': 'clastic_cookie=not-a-cookie-at-all; other=1'}
-SCENARIOS = ['nohdr204', 'ok200mount', 'post200', 'ok200pregz', 'ok200cookie1', 'ok200cookie2', 'ok200cookie3', 'ok200vary', 'ok200prof', 'ok200', 'ok200big', 'ok200random', 'ok200empty', 'ctx', 'ctxbig', 'head', 'redirect', 'raise404', 'ret404',
+SCENARIOS = ['ok200k16', 'nohdr204', 'ok200mount', 'post200', 'ok200pregz', 'ok200cookie1', 'ok200cookie2', 'ok200cookie3', 'ok200vary', 'ok200prof', 'ok200', 'ok200big', 'ok200random', 'ok200empty', 'ctx', 'ctxbig', 'head', 'redirect', 'raise404', 'ret404',
              'nb404', 'unknown404', 'wrong405', 'raise503', 'ret418', 'uncaught500']
 
 
@@ -79,6 +79,8 @@ def build(stack):
         return r
     routes = [('/ok200', lambda: Response(b'small body', mimetype='text/plain')),
               ('/nohdr204', nohdr204),
+              # a compressible body whose length is an exact multiple of common buffer sizes (16 KiB, 64 KiB)
+              ('/ok200k16', lambda: Response(b'abcdefgh' * (65536 // 8), mimetype='text/plain')),
               POST('/post200', lambda: Response(b'posted ok', mimetype='text/plain')),
               ('/ok200pregz', pregz),
               ('/ok200vary', with_vary),
